@@ -19,6 +19,8 @@ func checkC06(c *Ctx) {
 	c.Rule("C06-R3", "Fini only runs finish through sync.Once; finish has no other caller; the quit channel has exactly one closer")
 	c.Rule("C06-R4", "a field tested to make the screen inert is set on the shutdown path (a guard that is never written is dead)")
 	c.Rule("C06-R5", "PollEvent/PostEventWait/ChannelEvents: every blocking operation has a StopQ alternative; PollEvent returns nil on it")
+	c.Rule("C06-R8", "drawing cannot wedge a suspended screen: draw() returns at once unless the screen is running, and the column loop of every painter advances by at least one per cell (a width below 1, as reported for a cell outside the buffer, is raised to 1)")
+	c.Expect("C06-R8", 2)
 	c.Rule("C06-R7", "what the API methods dereference without a nil test stays in place after Fini: the Tty and Terminfo of a screen are stored (non-nil) by its constructor or Init only")
 	c.Expect("C06-R7", 2)
 	c.Rule("C06-R6", "what disengage dismantles, engage re-establishes on every successful path: the resize callback (NotifyResize with a function that pokes the queue the main loop reads), a fresh stop channel shared with both loops, and Tty.Start")
@@ -51,6 +53,7 @@ func checkC06(c *Ctx) {
 		c06Guards(c, p)
 		c06Poll(c, p, "C06-R5")
 		c06Reengage(c, p)
+		c06DrawProgress(c, p)
 		for _, f := range []string{"tty", "ti"} {
 			ws := []string{}
 			for _, fn := range p.modFns {
@@ -528,4 +531,80 @@ func c06Poll(c *Ctx, p *Prog, rule string) {
 			c.Undecided(rule, name+":select", p.pos(fn.Pos()), "no blocking select found")
 		}
 	}
+}
+
+// c06DrawProgress: Suspend empties the cell buffer but the painter still loops
+// over the remembered size; a cell outside the buffer reports width 0, and a
+// loop that advances by the width never ends - with the screen mutex held, so
+// that Resume and Fini block behind it.
+func c06DrawProgress(c *Ctx, p *Prog) {
+	draw := p.Fn("tcell:(*tScreen).draw")
+	if draw == nil {
+		c.Undecided("C06-R8", "(*tScreen).draw", "-", "not found")
+		return
+	}
+	// (a) gated on running: every call and store in draw is dominated by the true edge of t.running
+	gated := true
+	where := ""
+	eachInstr(draw, func(in ssa.Instruction) {
+		_, isCall := in.(*ssa.Call)
+		st, isStore := in.(*ssa.Store)
+		if !isCall && !isStore {
+			return
+		}
+		if isStore {
+			if _, local := st.Addr.(*ssa.Alloc); local {
+				return // spilling a parameter into its heap cell
+			}
+		}
+		ok := false
+		for _, a := range guardsAt(in.Block()) {
+			if a.L == "t.running" && ((a.Op == "==" && a.R == "true") || (a.Op == "!=" && a.R == "false")) {
+				ok = true
+			}
+		}
+		if !ok && gated {
+			gated = false
+			where = p.pos(in.Pos())
+		}
+	})
+	c.Check(gated, "C06-R8", "draw:only-while-running", p.pos(draw.Pos()), "draw() does nothing unless t.running "+where)
+	// (b) the step of the column loop: x's back-edge value is x + (width-1) + 1 with width >= 1
+	okStep, detail := false, "column loop not recognised"
+	for _, call := range callsIn(draw, func(n string, _ *ssa.CallCommon) bool { return strings.HasSuffix(n, "tScreen).drawCell") }) {
+		w, ok := call.(ssa.Value)
+		if !ok {
+			continue
+		}
+		// the value added to x: (phi(width, 1) - 1)
+		for _, r := range referrers(w) {
+			switch x := r.(type) {
+			case *ssa.BinOp:
+				if x.Op == token.SUB {
+					detail = "x advances by the raw width reported by drawCell (0 for a cell outside the buffer)"
+				}
+			case *ssa.Phi:
+				one := false
+				for _, e := range x.Edges {
+					if k, isK := constInt(e); isK && k == 1 {
+						one = true
+					}
+				}
+				floor := false
+				for i, e := range x.Edges {
+					if k, isK := constInt(e); isK && k == 1 {
+						for _, a := range guardsAt(x.Block().Preds[i]) {
+							if (a.Op == "<" && a.R == "1") || (a.Op == "<=" && a.R == "0") {
+								floor = true
+							}
+						}
+					}
+				}
+				if one && floor {
+					okStep, detail = true, "the width is raised to 1 before the column index advances by it"
+				}
+			}
+		}
+	}
+	c.Check(okStep, "C06-R8", "draw:column-loop-advances", p.pos(draw.Pos()), detail)
 }
